@@ -57,6 +57,8 @@ def classify(prop, v, known):
             continue
         if 'mech' in m and m['mech'] != v.get('mech'):
             continue
+        if 'mechs' in m and v.get('mech') not in m['mechs']:
+            continue
         if 'mech_prefix' in m and not str(v.get('mech', '')).startswith(m['mech_prefix']):
             continue
         return k
